@@ -7,6 +7,7 @@ package varlink
 // committed to the repository): a Connection over an arbitrary net.Conn, as NewConnection builds it.
 
 import (
+	"encoding/json"
 	"net"
 
 	"github.com/varlink/go/varlink/internal/ctxio"
@@ -17,4 +18,15 @@ func VerifNewConnection(conn net.Conn) *Connection {
 	c.address = "verif"
 	c.conn = ctxio.NewConn(conn)
 	return &c
+}
+
+// VerifDecodeCall decodes a request frame exactly as HandleMessage does (json.Unmarshal into serviceCall).
+func VerifDecodeCall(frame []byte) (method string, params []byte, hasParams, more, oneway, upgrade bool, err error) {
+	var in serviceCall
+	err = json.Unmarshal(frame, &in)
+	if in.Parameters != nil {
+		hasParams = true
+		params = []byte(*in.Parameters)
+	}
+	return in.Method, params, hasParams, in.More, in.Oneway, in.Upgrade, err
 }
